@@ -320,6 +320,40 @@ def r2d_bulk_insertion(rep, facts):
     rep.check(R, 'count', n >= (5 if 'toml' in facts.crates else 4), f'{n} impls of Extend', f'only {n} impls of Extend found in the workspace')
 
 
+def r7_fmt_scope(rep, facts):
+    R = rep.rule('C08/R7', 'reformatting a table touches its own key/value pairs only: the workers of Table::fmt / InlineTable::fmt, evaluated on a table holding a value, a '
+                 'sub-table, a dotted-key table, an array of tables and a placeholder with the decor resets recorded, clear the key decor and the value decor of the value '
+                 'entry and nothing else (the headers and dotted keys of the children keep their source text)', floor=2)
+    from .den import RecInterp, Evaluator, Unanalysable, EvalPanic
+    I, V = 'toml_edit::item::Item::', 'toml_edit::value::Value::'
+    decor = lambda tag: ('struct', 'toml_edit::repr::Decor', {'prefix': ('p', tag), 'suffix': ('s', tag), 'tag': tag})
+    key = lambda n: ('struct', 'toml_edit::key::Key', {'key': n, 'repr': ('opaque',), 'leaf_decor': decor('leaf decor of key ' + n), 'dotted_decor': decor('dotted decor of key ' + n)})
+    fv = lambda n: ('struct', 'toml_edit::repr::Formatted', {'value': ('elem', n), 'repr': ('ctor', 'core::option::Option::None'), 'decor': decor('decor of value ' + n)})
+    tbl = lambda n, imp, dot: ('ctor', I + 'Table', (('struct', 'toml_edit::table::Table', {'decor': decor('decor of table ' + n), 'items': (), 'implicit': imp, 'dotted': dot}),))
+    entries = (('v', ('ctor', I + 'Value', (('ctor', V + 'Integer', (fv('v'),)),))), ('t', tbl('t', False, False)), ('d', tbl('d', True, True)),
+               ('a', ('ctor', I + 'ArrayOfTables', (('struct', 'toml_edit::array_of_tables::ArrayOfTables', {'values': (), 'span': None}),))), ('g', ('ctor', I + 'None')))
+    want = ['leaf decor of key v', 'dotted decor of key v', 'decor of value v']
+    for ty, entry in (('toml_edit::table::Table', 'toml_edit::table::Table::fmt'), ('toml_edit::inline_table::InlineTable', 'toml_edit::inline_table::InlineTable::fmt')):
+        if not facts.has_body(entry):
+            rep.incomplete(R, last_seg(ty) + '::fmt', f'`{entry}` not found')
+            continue
+        b = facts.body(entry)
+        tab = ('struct', ty, {'items': tuple((key(n), it) for n, it in entries), 'decor': decor('decor of the table itself'), 'implicit': False, 'dotted': False})
+        it = RecInterp(Evaluator(facts), {'clear'})
+        try:
+            it.apply_fn(b, [tab])
+        except EvalPanic as ex:
+            rep.bad(R, last_seg(ty) + '::fmt', f'`{entry}` panics on a table with children: {ex}', facts.loc(b))
+            continue
+        except Unanalysable as ex:
+            rep.incomplete(R, last_seg(ty) + '::fmt', f'cannot evaluate `{entry}`: {ex}', facts.loc(b))
+            continue
+        got = [t[1][2].get('tag', '?') if isinstance(t[1], tuple) and len(t[1]) == 3 and isinstance(t[1][2], dict) else '?' for t in it.trace if t[0] == 'clear']
+        rep.check(R, last_seg(ty) + '::fmt', sorted(got) == sorted(want), f'clears {got}',
+                  f'`{entry}` clears {got}; it should clear exactly {want}: ' + ('the keys / headers of child tables are rewritten although the edit did not address them'
+                                                                             if set(got) - set(want) else 'part of the pair keeps its old spacing'), facts.loc(b))
+
+
 def rules(rep, facts):
     if 'toml_edit' not in facts.crates:
         return
@@ -328,6 +362,7 @@ def rules(rep, facts):
     order_ops(rep, R1, facts)
     r2_inplace(rep, facts)
     r2d_bulk_insertion(rep, facts)
+    r7_fmt_scope(rep, facts)
     r3_conversions(rep, facts)
     R6 = rep.rule('C08/R6', 'sorting touches what the API documents: each of the four sort functions sorts its own entries once, recurses only into dotted '
                   'children (sub-tables with their own header keep their order), through the same function and with the same comparison', floor=8)
